@@ -119,14 +119,8 @@ ArgsLoop:
 				// is the file of that name in this directory and
 				// "x.bin" the files of that name anywhere below it,
 				// although both are known as "<dir>/x.bin".
-				if relpath != "." && known.AnyDepth != !strings.Contains(strings.TrimSuffix(pattern, "/"), "/") {
-					continue
-				}
-				// The same text read from the attributes file of
-				// another directory is another pattern: "sub/*.bin"
-				// up there matches the files of sub only, "*.bin"
-				// down here those of every directory below it too.
-				if path.Dir(filepath.ToSlash(known.Source.Path)) != filepath.ToSlash(relpath) {
+				sameFile := path.Dir(filepath.ToSlash(known.Source.Path)) == filepath.ToSlash(relpath)
+				if sameFile && relpath != "." && known.AnyDepth != !strings.Contains(strings.TrimSuffix(pattern, "/"), "/") {
 					continue
 				}
 				// A line that mentions the pattern without giving
